@@ -36,6 +36,11 @@ fn eval_tcp_throughput_inv(rtt: f64, target_rate_bps: u32) -> f64 {
     loop {
         let c = (b + a)/2.0;
 
+        if c == a || c == b {
+            // The interval cannot be narrowed any further (target rate out of reach)
+            return c;
+        }
+
         let rate = eval_tcp_throughput(rtt, c);
 
         if rate > target_rate_bps {
